@@ -53,6 +53,7 @@ type cdpU struct {
 	products  []*uProduct
 	prodByID  map[uint64]*uProduct
 	cdpApps   []uint64
+	aucApps   []uint64 // apps with a generation-2 liquidation whitelisting (Dutch auctions can be opened for them)
 	variant   int
 	denoms    []string // when set, replaces cdpDenoms in snapshots (views over other universes)
 	extraMods []string
@@ -216,9 +217,16 @@ func newCDP(t *testing.T, o cdpOpts) *cdpU {
 			must(t, c.Gov(bindings.ComdexMessages{MsgSetCollectorLookupTable: &bindings.MsgSetCollectorLookupTable{
 				AppID: app, CollectorAssetID: u.byDenom[debt].ID, SecondaryAssetID: u.byDenom["uharbor"].ID,
 				SurplusThreshold: lot.MulRaw(10), DebtThreshold: lot.MulRaw(2), LockerSavingRate: dec(lsr), LotSize: lot, BidFactor: dec("0.01"), DebtLotSize: lot}}))
+			// auction flags: surplus or debt auctions (never both: the collector refuses that), in a quarter of the
+			// variants neither; the distributor flag only goes with "no surplus auctions"; the oracle-price flag of the
+			// mapping is read by the generation-1 hooks only
+			surplus, debtAuc := (o.variant+int(app))%2 == 0, (o.variant+int(app))%2 == 1
+			if (o.variant/2+int(app))%4 == 3 {
+				surplus, debtAuc = false, false
+			}
 			must(t, c.Gov(bindings.ComdexMessages{MsgSetAuctionMappingForApp: &bindings.MsgSetAuctionMappingForApp{
-				AppID: app, AssetIDs: u.byDenom[debt].ID, IsSurplusAuctions: (o.variant+int(app))%2 == 0, IsDebtAuctions: (o.variant+int(app))%2 == 1, IsDistributor: false,
-				AssetOutOraclePrices: false, AssetOutPrices: 1_000_000}}))
+				AppID: app, AssetIDs: u.byDenom[debt].ID, IsSurplusAuctions: surplus, IsDebtAuctions: debtAuc, IsDistributor: !surplus && (o.variant/4)%2 == 1,
+				AssetOutOraclePrices: o.variant%3 == 0, AssetOutPrices: 1_000_000}}))
 			must(t, c.Gov(bindings.ComdexMessages{MsgWhiteListAssetLocker: &bindings.MsgWhiteListAssetLocker{AppID: app, AssetID: u.byDenom[debt].ID}}))
 			must(t, c.Gov(bindings.ComdexMessages{MsgWhitelistAppIDLockerRewards: &bindings.MsgWhitelistAppIDLockerRewards{AppID: app, AssetID: u.byDenom[debt].ID}}))
 		}
@@ -237,9 +245,18 @@ func newCDP(t *testing.T, o cdpOpts) *cdpU {
 	dutch := liqV2types.DutchAuctionParam{Premium: dec("1.2"), Discount: dec("0.7"), DecrementFactor: sdk.NewInt(1)}
 	english := liqV2types.EnglishAuctionParam{DecrementFactor: sdk.NewInt(1)}
 	c.App.NewliqKeeper.SetLiquidationWhiteListing(ctx, liqV2types.LiquidationWhiteListing{AppId: appBeacon, Initiator: true, IsDutchActivated: true, DutchAuctionParam: &dutch,
-		IsEnglishActivated: true, EnglishAuctionParam: &english, KeeeperIncentive: dec("0.05")})
+		IsEnglishActivated: true, EnglishAuctionParam: &english, KeeeperIncentive: dec([]string{"0.05", "0.05", "0", "0.1"}[o.variant%4])})
+	// the lend app hosts no vaults here; it is whitelisted (other price band, a keeper incentive in a quarter of the
+	// variants only: at this commit an external auction of an app with an incentive cannot be closed, the closing bid
+	// panics on the empty keeper address) so that anyone can open externally initiated Dutch auctions for it
+	dutchExt := liqV2types.DutchAuctionParam{Premium: dec("1.15"), Discount: dec("0.8"), DecrementFactor: sdk.NewInt(1)}
+	c.App.NewliqKeeper.SetLiquidationWhiteListing(ctx, liqV2types.LiquidationWhiteListing{AppId: appCommodo, Initiator: false, IsDutchActivated: true, DutchAuctionParam: &dutchExt,
+		IsEnglishActivated: false, KeeeperIncentive: dec([]string{"0", "0", "0.03", "0"}[o.variant%4])})
+	u.aucApps = []uint64{appBeacon, appCommodo}
+	// penalty and bonus of externally initiated auctions (vault seizures take the penalty from the product and carry no
+	// bonus): the bonus is zero in a third of the variants
 	c.App.NewaucKeeper.SetAuctionParams(ctx, auctionsV2types.AuctionParams{AuctionDurationSeconds: 3600, Step: dec("0.1"), WithdrawalFee: dec("0.01"), ClosingFee: dec("0.01"),
-		MinUsdValueLeft: 100_000, BidFactor: dec("0.01"), LiquidationPenalty: dec("0.1"), AuctionBonus: dec("0.0")})
+		MinUsdValueLeft: 100_000, BidFactor: dec("0.01"), LiquidationPenalty: dec([]string{"0.1", "0.15"}[(o.variant/3)%2]), AuctionBonus: dec([]string{"0.0", "0.05", "0.02"}[o.variant%3])})
 	return u
 }
 
